@@ -175,6 +175,12 @@ func init() {
 		case "MapOrderNondet":
 			p.mapOrderNondet = a[0].(*Term).val != 0
 			return nil, true
+		case "RandIntSmall":
+			p.randSmall = a[0].(*Term).val != 0
+			return nil, true
+		case "RandIntEdges":
+			p.randEdges = a[0].(*Term).val != 0
+			return nil, true
 		case "ConcLimit":
 			p.concLimit = p.intArg(a[0])
 			return nil, true
